@@ -65,6 +65,8 @@ struct Obs {
     send_results: Vec<String>,
     err: Option<String>,
     burst_done: bool,
+    /// the channel has been ended (all senders dropped); subscribers that never consumed may drain now
+    end_done: bool,
 }
 
 enum AnyRx {
@@ -83,13 +85,15 @@ impl AnyRx {
 
 async fn consume(id: u8, mut rx: AnyRx, pattern: Pattern, obs: Shared<Obs>, gate: Arc<tokio::sync::Notify>) {
     let mut got = 0u32;
+    let mut released = false;
     let push = |obs: &Shared<Obs>, s: String| obs.lock().unwrap().events.entry(id).or_default().push(s);
     obs.lock().unwrap().events.entry(id).or_default();
     loop {
         match pattern {
-            Pattern::Never => {
+            Pattern::Never if !released => {
+                // released only at the very end, then it drains without further waiting
                 gate.notified().await;
-                // released only at the very end: drain
+                released = obs.lock().unwrap().end_done;
             }
             Pattern::StallAfter(j) if got == j && !obs.lock().unwrap().burst_done => {
                 gate.notified().await;
@@ -210,6 +214,7 @@ impl Scenario for BcastScenario {
             env.quiesce().await;
             gate.notify_waiters();
             // "never" subscribers are released at the very end
+            o2.lock().unwrap().end_done = true;
             for _ in 0..4 {
                 env.quiesce().await;
                 gate.notify_waiters();
